@@ -329,7 +329,12 @@ def archive_dir(src: pathlib.Path, dest: pathlib.Path,
         dest: path pointing to a zip file
     """
     src = src.resolve()
-    for d, _, files in os.walk(src):
+
+    def onerror(err):
+        # os.walk skips the directories it cannot list
+        raise err
+
+    for d, _, files in os.walk(src, onerror=onerror):
         for f in files:
             srcfile = pathlib.Path(os.path.join(d, f))
             rel = srcfile.relative_to(src)
